@@ -230,7 +230,12 @@ def supply(way, lang, name, body, ydict):
     y = json.loads(json.dumps(ydict))
     files = {}
     argv = []
-    if way in ("cmdline-file", "yaml-file"):
+    if way.startswith("cmdline-file."):
+        # every file suffix the command line documents for the language
+        fn = "user_splicer" + way[len("cmdline-file"):]
+        files[fn] = "%s splicer begin %s\n%s%s splicer end %s\n" % (COMMENT[lang], name, "".join(ln + "\n" for ln in body), COMMENT[lang], name)
+        argv = [fn]
+    elif way in ("cmdline-file", "yaml-file"):
         fn = "user_splicer" + EXT[lang]
         files[fn] = "text outside is ignored\n%s splicer begin %s\n%s%s splicer end %s\ntrailing text\n" % (
             COMMENT[lang], name, "".join(ln + "\n" for ln in body), COMMENT[lang], name)
@@ -483,6 +488,13 @@ FUNC_DECLS = [
     ((7, 1, 2), "c", "c", "namespace.inner.class.Thing.method.get_id"),
     ((7, 1, 2), "f", "f", "namespace.inner.class.Thing.method.get_id"),
     ((7, 1, 2), "py", "py", "namespace.inner.class.Thing.method.get_id"),
+    # functions whose result statements bring their own call / body: constructor, destructor, string result, static method
+    ((7, 1, 0), "f", "f", "namespace.inner.class.Thing.method.ctor"),
+    ((7, 1, 0), "c", "c", "namespace.inner.class.Thing.method.ctor"),
+    ((7, 1, 1), "f", "f", "namespace.inner.class.Thing.method.dtor"),
+    ((7, 1, 4), "f", "f", "namespace.inner.class.Thing.method.count"),
+    ((1,), "f", "f", "function.get_name"),
+    ((2,), "f", "f", "function.scale"),
 ]
 
 
@@ -533,6 +545,12 @@ def run(ctx):
         plan += [(lang, name, b, w) for lang, name in rep[:: max(1, len(rep) // 14)] for b in bodies[1:] for w in ways]
     else:
         plan = [(lang, name, b, w) for lang, name in names for b in bodies for w in ways]
+    SUFFIXES = {"c": [".h", ".cpp", ".hpp", ".cxx", ".hxx", ".cc", ".C"], "f": [".f90"]}
+    for lang_, sufs in SUFFIXES.items():
+        ln_ = [n for l, n in names if l == lang_]
+        for suf in sufs:
+            for name_ in (ln_[:1] + ln_[-1:]):
+                plan.append((lang_, name_, "one", "cmdline-file" + suf))
     for lang, name, b, w in plan:
         i += 1
         jobs.append((os.path.join(basedir, "w%d" % i), ydict, w, lang, name, b, base_blocks))
